@@ -56,6 +56,9 @@ def jobs_for(ctx, n):
         reqs.append({"iface": "paths_seq", "split": 0, "shuffle": 0, "repeat": False, "filters": [rng.choice([0, 1, 2, 3, 9, None]) for _ in range(6)]})
         reqs.append({"iface": "paths_seq", "split": 0, "shuffle": 0, "repeat": False, "seq": [
             {"filter": rng.choice([None, None, None, 1, 2, {"nex_ge": 2}, {"nex_eq": 1}]), "shards": rng.choice([None, 1, 2, 3, 50]), "limit": rng.choice([None, None, 1, 2])} for _ in range(6)]})
+        for via in ("sync", "concurrent"):
+            reqs.append({"iface": "iface_seq", "via": via, "split": 0, "shuffle": 0, "repeat": False, "seq": [
+                {"filter": rng.choice([1, 2, 1, 2, None, {"nex_ge": 2}]), "shards": rng.choice([None, None, 2])} for _ in range(5)]})
         jobs.append({"dataset": spec, "requests": reqs})
     return jobs
 
@@ -95,6 +98,15 @@ def run(ctx):
                 continue
             runs += 1
             one = {"dataset": job["dataset"], "requests": [q]}
+            if q["iface"] == "iface_seq":
+                wants = []
+                for x in q["seq"]:
+                    w = spec_select(shards, x.get("filter"), x.get("shards"), None)
+                    wants.append("error" if w is None else [e for i in w for e in shards[i][0]])
+                if o.get("error") or o.get("out") != wants:
+                    ctx.report("selection-depends-on-history", f"successive passes through {q['via']} on one handle with options {[(x.get('filter'), x.get('shards')) for x in q['seq']]} on metadata "
+                                                               f"{[m for _e, m in shards]}: returned {o.get('out') or o.get('error')} expected {wants}", {"job": one})
+                continue
             if q["iface"] == "paths_seq":
                 seq = q.get("seq") or [{"filter": fv} for fv in q["filters"]]
                 wants = [spec_select(shards, x.get("filter"), x.get("shards"), x.get("limit")) for x in seq]
@@ -169,6 +181,13 @@ def replay(ctx, rp):
     r = iterlib.run_jobs([job])[0]
     q, o = job["requests"][0], r["results"][0]
     shards = r["reference"]["0"]["shards"]
+    if q["iface"] == "iface_seq":
+        wants = []
+        for x in q["seq"]:
+            w = spec_select(shards, x.get("filter"), x.get("shards"), None)
+            wants.append("error" if w is None else [e for i in w for e in shards[i][0]])
+        print(json.dumps({"expected": wants, "result": o})[:1500])
+        return o.get("out") == wants
     if q["iface"] == "paths_seq":
         seq = q.get("seq") or [{"filter": fv} for fv in q["filters"]]
         wants = ["error" if w is None else w for w in (spec_select(shards, x.get("filter"), x.get("shards"), x.get("limit")) for x in seq)]
